@@ -12,9 +12,13 @@ def plan(tier, seed):
     for n in range(0, nt + 1):
         units.append(dict(hfile='free.py', fname='c19_tokenize', args=(n,), summary_mode=True, hang_label='C19:tokenizer-does-not-terminate',
                           split=(256 if n >= 5 else 96 if n == 4 else (8 if n == 3 else 0))))
+    for fi in range(17):
+        for n in ((1, 2) if tier == 'quick' else (1, 2, 3)):
+            units.append(dict(hfile='free.py', fname='c19_tokenize', args=(n, fi), summary_mode=True, hang_label='C19:tokenizer-does-not-terminate'))
     return dict(units=units,
                 bounds={'categorize_direct': 'real categorize on every string of length 0..%d, all code points (length 1 = the all-1,114,112-code-points claim, decided per cell by z3)' % nd,
-                        'tokenize_summary': 'tokenize(categorize(s)) for every string of length 0..%d, all code points' % nt},
+                        'tokenize_summary': 'tokenize(categorize(s)) for every string of length 0..%d, all code points' % nt,
+                        'tokenize_frames': '17 concrete frames (sizing prefixes, multi-character delimiters, line break + prefix, \\item, comment, \\newcommand, spacer runs, escaped dollar) around 1..%d free characters' % (2 if tier == 'quick' else 3)},
                 outside=['strings longer than the bounds; multi-character command names beyond those reachable in %d characters' % nt],
                 assumptions=['the category partition lemma (21 cells, disjoint and complete by z3) is recomputed from the source on every run'])
 
